@@ -33,6 +33,7 @@ type callKind struct {
 	fail   string // "" | "s1" | "s2early" | "s2late"
 	edit   bool   // edit the result in place afterwards
 	second bool   // parse ND with several lines
+	deser  bool   // afterwards, Deserialize another document into the result object and reuse THAT
 }
 
 var callKinds = []callKind{
@@ -50,6 +51,7 @@ var callKinds = []callKind{
 	{name: "nd-large-s2fail", nd: true, copy: true, large: true, fail: "s2early"},
 	{name: "small-ok-edit", copy: true, edit: true},
 	{name: "large-ok-edit", copy: true, large: true, edit: true},
+	{name: "small-ok-then-deserialize-into-it", copy: true, deser: true},
 }
 
 type builtCall struct {
@@ -99,6 +101,8 @@ func buildCall(r *rand.Rand, k callKind, flush, slots int) builtCall {
 	}
 	return bc
 }
+
+var reuseSer = simdjson.NewSerializer()
 
 func doCall(bc builtCall, reuse *simdjson.ParsedJson) (*simdjson.ParsedJson, error) {
 	return run.Parse(append([]byte{}, bc.text...), run.Cfg{Copy: bc.kind.copy, ND: bc.kind.nd}, reuse)
@@ -237,11 +241,33 @@ func vpipe(args []string) error {
 				id := fmt.Sprintf("%s-reuse-%d-%d", *prop, h, c)
 				cfg := map[string]interface{}{"history": append([]string{}, names...)}
 				check(id+":"+fmt.Sprint(names), bc, pj, err, cfg)
+				fpj, ferr := doCall(bc, nil)
+				if (ferr == nil) != (err == nil) {
+					rep.Add(run.Mismatch{Property: *prop, Sig: "reuse-vs-fresh-verdict:" + fmt.Sprint(names), Cfg: cfg, Want: fmt.Sprintf("same outcome as on a fresh object (err=%v)", ferr), Got: fmt.Sprintf("err=%v", err)})
+				} else if err == nil && (fmt.Sprint(fpj.Tape) != fmt.Sprint(pj.Tape) || !bytes.Equal(fpj.Strings.B, pj.Strings.B)) {
+					rep.Add(run.Mismatch{Property: *prop, Sig: "reuse-vs-fresh-tape:" + fmt.Sprint(names), Cfg: cfg, Want: "tape and string buffer identical to a parse without reuse", Got: "different"})
+				}
 				if pj != nil {
 					if bc.kind.edit {
 						editInPlace(pj)
 					}
 					reuse = pj
+					if bc.kind.deser {
+						// a destination filled by Deserialize (no parser internals, Message holds the strings) is reused next
+						other := pre[(h+c)%len(pre)]
+						if opj, oerr := doCall(other, nil); oerr == nil {
+							reuseSer.CompressMode(simdjson.CompressMode((h + c) % 4))
+							blob := reuseSer.Serialize(nil, *opj)
+							if dpj, derr := reuseSer.Deserialize(blob, pj); derr != nil {
+								rep.Add(run.Mismatch{Property: *prop, Sig: "deserialize-into-reused:" + fmt.Sprint(names), Cfg: cfg, Want: "round trip into a reused destination", Got: derr.Error()})
+							} else {
+								if cerr := read.Compare(dpj, other.roots); cerr != nil {
+									rep.Add(run.Mismatch{Property: *prop, Sig: "deserialize-into-reused-doc:" + fmt.Sprint(names), Cfg: cfg, Want: "the serialized document", Got: "different", Detail: cerr.Error()})
+								}
+								reuse = dpj
+							}
+						}
+					}
 				}
 				if reuse != nil {
 					last = simdjson.VerifState(reuse)
